@@ -3,7 +3,11 @@
 package commitlog
 
 import (
+	"context"
+	"fmt"
+	"io"
 	"strconv"
+	"strings"
 	"time"
 )
 
@@ -20,6 +24,49 @@ func (v *vLogImpl) execMore(f []string) string {
 			return "err " + vErrEnum(err) + " | " + v.state()
 		}
 		return "ok | " + v.state()
+	case "roll":
+		// age-based roll of the active segment (only a segment that was written to is rolled)
+		act := v.l.activeSegment()
+		if !act.IsEmpty() {
+			if err := v.l.split(act); err != nil {
+				return "err " + vErrEnum(err)
+			}
+			act.Seal()
+		}
+		return "ok | " + v.state()
+	case "tsearliest":
+		ts, _ := strconv.ParseInt(f[1], 10, 64)
+		o, err := v.l.EarliestOffsetAfterTimestamp(ts)
+		if err != nil {
+			return "err timestamp"
+		}
+		return fmt.Sprintf("ok %d", o)
+	case "tslatest":
+		ts, _ := strconv.ParseInt(f[1], 10, 64)
+		o, err := v.l.LatestOffsetBeforeTimestamp(ts)
+		if err != nil {
+			return "err timestamp"
+		}
+		return fmt.Sprintf("ok %d", o)
+	case "revread":
+		o, _ := strconv.ParseInt(f[1], 10, 64)
+		r, err := v.l.NewReverseReader(o, false)
+		if err != nil {
+			return "err " + vErrEnum(err)
+		}
+		var out []string
+		buf := make([]byte, 28)
+		for i := 0; i < 100000; i++ {
+			m, off, ts, _, err := r.ReadMessage(context.Background(), buf)
+			if err == io.EOF {
+				break
+			}
+			if err != nil {
+				return "err " + vErrEnum(err)
+			}
+			out = append(out, fmt.Sprintf("%d:%d:%s:%s", off, ts, vShowBytes(m.Key()), vShowBytes(m.Value())))
+		}
+		return "ok " + strings.Join(out, " ")
 	}
 	return "bad-op"
 }
